@@ -78,6 +78,10 @@ def expand(F, v, depth=4, _memo=None):
             r = args[0] if name != 'or' else prov.phi(args)
         elif is_opt and name == 'or_else' and len(args) == 2:
             r = prov.phi([args[0], apply_fn(F, args[1], [], depth)])
+        elif name in ('call', 'call_once', 'call_mut') and (f.get('trait') or f.get('path') or '').startswith(('std::ops::Fn', 'core::ops::function::Fn', 'std::ops::function::Fn')) \
+                and len(args) == 2 and args[1][0] == 'agg' and args[1][1] == 'tuple':
+            items = args[1][-1]
+            r = apply_fn(F, args[0], list(items.values() if isinstance(items, dict) else items), depth)
         elif is_opt and name in ('then', 'then_some'):
             r = ('call', f, args, v[3])
         else:
